@@ -149,7 +149,10 @@ PROPS = {
                 "of the three repaired defects; exhaustive = all strings of length <=3 (quick) / <=4 (thorough) over the 39-byte alphabet "
                 "0 1 9 a e E x b _ n u U f i . + - \" ` \\ / * = ! : < > & | ( { space \\n \\t \\r NUL 0x80 0xc2 0xa0, both modes; "
                 "20k (quick) / 300k (thorough) random strings (alphabet soup, token-fragment soup, uniform bytes); every examples/*.gr and "
-                "tests/*.gr whole in both modes plus 12 (quick) / 150 (thorough) windows of each with up to 3 byte mutations. "
+                "tests/*.gr whole in both modes plus 12 (quick) / 150 (thorough) windows of each with up to 3 byte mutations; "
+                "(lexfam2.go) cases `2;<text>`: the same text through TWO lexers (file mode, then line mode) with pointer identities numbered over both "
+                "runs - 'one shared object' is checked across lexers (the model threads one interning table through both runs): every shipped program, "
+                "300 / 5000 fragment soups, long repeated tokens, every escape body. "
                 "non-trivial = at least one token before the end marker; distinct = distinct (mode, input) line.",
         "exhaustive_note": "strings of length <=3 (quick) / <=4 (thorough) over the 39-byte significant alphabet, both modes, are enumerated completely",
         "trusted_base": COMMON_TB + ["modelled: lexer/lexer.go (all of it: NextToken, skipWhitespace, readChar/peekChar past the end, readNumber, "
@@ -162,7 +165,7 @@ PROPS = {
                                      "space-rune table, block-comment scanner); the theorems are about the model; the link statement<->theorems is by reading, "
                                      "and both are evaluated on the same cases"],
         "assumptions": ["Go's strings.TrimSpace / unicode.IsSpace / utf8.AppendRune behave as documented (modelled by trimSpaceRight / appendRune, compared on every comment and \\u escape the generators produce)",
-                        "the interning map of the running process may already hold keys from earlier cases; pointer identities are compared only within one case, numbered by first appearance"],
+                        "the interning map of the running process may already hold keys from earlier cases; pointer identities are compared only within one case (one lexer, or the two lexers of a `2;` case), numbered by first appearance"],
     },
     "C17": {
         "generated": True,
@@ -307,6 +310,7 @@ PROPS = {
                      "Grol.E.triggerNoCache_loud", "Grol.E.evalDelete_loud", "Grol.E.finishCall_quiet", "Grol.E.applyFunction_quiet",
                      "Grol.E.makeRef_go_quiet", "Grol.E.no_trigger_during", "Grol.E.no_del_during", "Grol.E.nested_call_during",
                      "Grol.E.C04.quiet_call_deterministic", "Grol.E.C04.quiet_call_depends_only_on_trusted", "Grol.E.C04.agree_stRq",
+                     "Grol.E.C04.constant_param_is_miss", "Grol.E.C04.purity_footprint_full", "Grol.E.applyFunction_quiet_full",
                      "Grol.E.stRq_miss", "Grol.E.det_agree", "Grol.E.det_run", "Grol.E.ren_id",
                      "Grol.R.qSpec_all", "Grol.R.applyFunction_qstep", "Grol.R.finishCall_loud", "Grol.R.SimG.switch", "Grol.R.SimQ.bind",
                      "Grol.R.StRq.retarget", "Grol.R.qsim_makeRef_go", "Grol.R.qsim_makeRef", "Grol.R.qsim_envGet", "Grol.R.qsim_valueOf",
@@ -377,7 +381,12 @@ PROPS = {
                 "(normal, compact, all-parens, compact+all-parens) under recover. Families: all sequences of <=2 tokens of a 52-token alphabet "
                 "and all sequences of 3 tokens of a 31-token alphabet (quick; thorough: 3 of 52, 4 of 31), each rendered with and without "
                 "separating spaces; 33 grammar templates with 2-3 holes filled exhaustively/sampled; random token soups; grammar-generated "
-                "programs; every-byte / sampled truncations and byte mutations (NUL, 0x80-0xFF, delimiters) of examples/*.gr and tests/*.gr. "
+                "programs; every-byte / sampled truncations and byte mutations (NUL, 0x80-0xFF, delimiters) of examples/*.gr and tests/*.gr; "
+                "(formatfam2.go) every ordered pair of `:` with the other binary operators in plain / index / map / call context, and parameter lists of "
+                "func / named func / macro / lambda with 44 kinds of token (strings, numbers, keywords, operators, comments, ILLEGAL and NUL bytes, `..`) in "
+                "every position, with every truncation of the short ones; every ordered pair of the 35 tokens the alphabet lacks (!= <= > >= >> % false continue first rest "
+                "print println log error catch unquote del, raw string, malformed numbers, NUL, 0xff, backslash, stray quotes and comment ends) with every token, "
+                "spaced and glued; nests of 37 wrapping constructs 12 and 40 levels deep and 60 random mixed nests. "
                 "The statement also checks, on the real lexer's streams, the two lexer facts (StreamWF) the no-panic theorem assumes. "
                 "non-trivial = non-empty tree, an error or a continuation; distinct = distinct source text.",
         "trusted_base": COMMON_TB + _FRONT_TB,
@@ -399,9 +408,18 @@ PROPS = {
         "rule": _FRONT_RULE + " parse15 suite: grammar-generated valid programs (1-3 statements, depth <=3) and the shipped examples; for each, "
                 "EVERY token-boundary cut, the cut just before the closing quote of every string and 5 cuts inside every block comment "
                 "(case `<program>@<k>`: line mode on the prefix; hypothesis of part 2 decided by Front.cutKind on the file-mode stream of the "
-                "whole program), plus the whole program and a quarter of the prefixes as plain cases for part 1. "
-                "chunks suite (part 3): 13 hand-written scripts and 150 (quick) / 900 (thorough) scripts from the typed program generator of the eval suite "
-                "(3-9 top-level statements: assignments, function definitions, loops, prints, a final expression; no macros, no top-level return); for each, "
+                "whole program: bracket depth > 0, after a binary operator, after `.` or `=>`, after the opening and before the closing quote of a string, after the `/*` "
+                "and before the end of a block comment), plus the whole program and a quarter of the prefixes as plain cases for part 1; "
+                "(parse15fam2.go) 104 hand-written valid programs, one per production and nesting the random generator does not produce (comments inside "
+                "brackets, parameter lists, else-if chains, multi-line brackets, every builtin, dot forms, escapes, comments starting with `/*/`), each with "
+                "EVERY token-boundary cut and a cut at EVERY byte inside every string and block comment. Classes: a failing in-comment cut is the recorded "
+                "finding only when the cut text ends in the comment `/*/`; file-valid/line-continuation only when a brace is still open. "
+                "chunks suite (part 3): 16 hand-written scripts and 150 (quick) / 900 (thorough) scripts from the typed program generator of the eval suite "
+                "(3-9 top-level statements: assignments, function definitions, loops, prints, a final expression; no macros, no top-level return), "
+                "(chunksfam2.go) 23 more hand-written scripts (comments as statements, several statements per line, constants, del, function redefinition "
+                "between uses of a caller, closures with state, catch, self, variadics, the shipped `unless` macro, macros used inside functions and inside "
+                "other templates), 3 scripts of the recorded finding macro-redefined-after-use-in-one-input, and 40 / 400 sessions of the macro suite's "
+                "generator joined into one script (1-3 macros, every definition before its first use); for each, "
                 "ALL 2^(n-1) splits into consecutive chunks when n <= 6 statements, otherwise the trivial split, one statement per chunk and 12/40 random splits; "
                 "a chunk's text is the normal-mode printer output of its parsed statements; (a) the script as one input and (b) the chunks one input at a time "
                 "on one persistent eval.State are evaluated by the harness's replica of repl.EvalOne (evalInput: parse, macros, Eval, recover+Reset) in the 4 "
@@ -431,7 +449,13 @@ PROPS = {
                 "operators in parent/left-child and parent/right-child position, x 7 prefix and 2 postfix operators, index/call/dot/lambda "
                 "combinations (~40 templates per operator); ~330 hand-picked adjacency, comment, literal and lambda cases; every ordered pair of 41 "
                 "statement kinds x 4 separators, at top level and in a block; grammar-generated programs with all literal forms and strings over "
-                "arbitrary bytes/runes; the shipped examples and byte mutations. Tree equality ignores the two layout flags of comments, and "
+                "arbitrary bytes/runes; the shipped examples and byte mutations; (formatfam2.go) `:` against every binary and prefix operator in "
+                "parent/child position (plain, index, map, call, open-ended), parameter lists with 44 kinds of token in every position, 34 kinds of operand "
+                "on either side of the dot index / [ ] / call, a comment (line, block, multi-line) between every pair of 12 statement kinds with every "
+                "combination of separators at top level and in 11 kinds of block (function, if / else / else-if, for, lambda, macro, blocks inside call "
+                "arguments, arrays, map values), statement pairs x 7 separators inside 19 kinds of nested block (sampled 1/60 in the quick tier), and nests of 37 wrapping "
+                "constructs 12 and 40 levels deep plus 60 random mixed nests. The class repeated-associative-operator-on-the-right is decided exactly: the "
+                "re-parsed tree equals the original up to re-association of chains of one associative operator. Tree equality ignores the two layout flags of comments, and "
                 "statement-level comments in compact mode. non-trivial = error-free non-empty program.",
         "trusted_base": COMMON_TB + _FRONT_TB,
         "assumptions": ["as C08", "strconv.IsPrint for runes >= 0x80 is a generated table (lean/Grol/Generated/IsPrint.lean)"],
@@ -445,7 +469,8 @@ PROPS = {
         "suites": ["format03"],
         "rule": _FRONT_RULE + " format03 suite: same cases as the format suite; statement = second-pass text byte-identical to the first "
                 "(normal and compact), normal text ends with exactly one newline, and (every 40th case) same bytes after token.Init() reset the "
-                "interning table. Map iteration order cannot be exhibited by the pure model (Order slice is what is printed).",
+                "interning table, and (every 400th error-free case, field F.x, formatfam3.go) same bytes from a FRESH PROCESS (subcommand fmtchild of the harness binary). "
+                "Map iteration order cannot be exhibited by the pure model (Order slice is what is printed).",
         "trusted_base": COMMON_TB + _FRONT_TB,
         "assumptions": ["as C02"],
     },
